@@ -258,6 +258,22 @@ def run(pid, args):
         v.violation("expr-%d" % len(seen), {"property": pid, "term": repr(c.term), "rv": c.rv, "kinds": c.kinds, "vals": c.vals,
                                             "cpp": gen_expr.to_cpp(c.term), "model": m, "impl": il, "diff": d, "proof_problems": problems,
                                             "broken": "correspondence AdaptorModel vs library on a generated expression"})
+    if pid == "C11" and not args.replay:
+        # "an argument declared by value arrives at every slot equal to the emitted value ... and a result is
+        # returned without being replaced by a default unless no slot ran": decided on SigCore programs
+        # (value-returning and accumulated signals, blocked / disconnected slots after the one that ran)
+        from checks import sigcheck
+        from vlib.common import driver_build
+        sexe, serr = driver_build([os.path.join(VERIF, "harness", "driver.cc"), os.path.join(VERIF, "harness", "probe.cc")], "asan")
+        if sexe:
+            progs = sigcheck.gen_programs("C13", tier, seed, 0.3)
+            smism, sstats, sran, _merrs = sigcheck.correspondence(v, "C11", progs, sexe, model_exe)
+            v.coverage["emission_results_on_sigcore_programs"] = dict(sstats, mismatches=len(smism), profiles=sigcheck.CFG["C13"]["profiles"])
+            for k, mm in enumerate(smism[:2]):
+                sm = sigcheck.shrink_mismatch("C11", mm, sexe, model_exe)
+                if not sm["diff"]:
+                    sm = dict(mm, original=mm["program"])
+                v.violation("result-%d" % (k + 1), dict(sm, property=pid, broken="arguments / emission result differ from the LL model on a signal program (pinned: invocations with their arguments, results)"))
     if pid == "C09" and not args.replay:
         # slots stored inside / referred to by other slots: NestModel against the library
         from checks.nestpart import nest_part
